@@ -70,6 +70,19 @@ fn real_main(args: Vec<String>) -> i32 {
             }
             0
         }
+        "classify" => {
+            // diagnostic: under-constrained witness classification of the program of a replay file
+            let text = std::fs::read_to_string(&args[2]).expect("read");
+            let j: serde_json::Value = serde_json::from_str(&text).expect("json");
+            let prog = j["program"].as_str().unwrap_or("");
+            for debug in [false, true] {
+                match drive::build(prog, simfony::Arguments::default(), debug) {
+                    Ok(b) => println!("debug={debug}: (witness nodes, under-constrained) = {:?}", drive::under_constrained_witnesses(&b.compiled)),
+                    Err(e) => println!("debug={debug}: {e:?}"),
+                }
+            }
+            0
+        }
         "dump-jets" => {
             props::c13::dump_jets();
             0
